@@ -236,7 +236,8 @@ EXTRA4 = {
  "C12": ("; scrypt composition rows (RFC 7914 6), HKDF-Expand at 255*HashLen, bytearray arguments unchanged", ""),
  "C13": ("; X.509 shape rows, strict SEQUENCE member rows, PBES2 round trips incl. the empty plaintext", ""),
  "C14": ("; prime generation over scripted draw / verdict tapes", " Also decided: generate_probable_prime returns the first drawn candidate that passed, of exactly the requested size."),
- "C15": ("; decoder-length and point-constructor refusal rows", ""),
+ "C15": ("; decoder-length and point-constructor refusal rows; sender / receiver message histories over a keyed stand-in AEAD",
+         " Also decided: for a history of five sealed messages the receiver opens them in order and refuses reordered, replayed, modified, truncated or extended messages and other associated data, staying able to open the next genuine message; nonces are base_nonce xor seq."),
  "C16": ("; result types in the Integer table; Montgomery tables of the custom-C back-end", ""),
  "C17": ("; prototype arity of every (point class, curve) pair against the C prototypes; strxor buffer-length rows; bounds-checked big-number rows on the C evaluator",
          " Also decided: every native call of the point layer has the argument count of the prototype bound by the object's curve, or the curve is refused before any native call."),
